@@ -168,9 +168,12 @@ pub fn property(tier: Tier) -> Property {
         cfg.max_ops = tier.pick(10, 16);
         cfg.hist.namings = crate::tm::Naming::diverse();
         cfg.hist.gen.alphabet = 5;
-        cfg.hist.gen.max_fv = 5;
+        cfg.hist.gen.max_fv = 4;
         cfg.hist.gen.max_depth = 2;
-        cfg.hist.gen.ops = Some(vec!["v", "f2", "g3", "g4", "h4", "g5", "c0", "p", "w", "lam"]);
+        cfg.rewrite_p = 1;
+        cfg.no_subst_rules = true;
+        cfg.allow_extraction_subst = false;
+        cfg.hist.gen.ops = Some(vec!["v", "f2", "g3", "g4", "h4", "c0", "p", "w", "lam"]);
         cfg.hist.weights = [1, 1, 4, 3, 1, 2, 3, 1, 4, 1, 2, 5];
         stages.push(Box::new(Stage {
             name: "long-core-wide",
@@ -178,7 +181,7 @@ pub fn property(tier: Tier) -> Property {
             run,
             panic_is_violation: true,
             render: |c: &Mixed| c.render(),
-            rule: "as long-core, over a 5-name alphabet with leaves of up to 5 slots, mostly permuted copies, renamed copies and unions of a symmetric leaf with a smaller leaf over a subset of its names (several slots redundant in one step)",
+            rule: "as long-core, over a 5-name alphabet with leaves of up to 4 slots, mostly permuted copies, renamed copies and unions of a symmetric leaf with a smaller leaf over a subset of its names (several slots redundant in one step)",
             case_timeout_s: tier.pick(30, 120),
             exhaustive: false,
         }));
